@@ -89,7 +89,7 @@ theorem dparts_invalSys (st : St) (g : Nat) : (st.invalSys g).dparts = st.dparts
 theorem restore_dpart_prefix (sb : Sub) (g : Nat) : ∃ r, sb.dpart = (sb.restore g).dpart ++ r := by
   unfold Sub.restore
   split
-  · exact ⟨[], by simp⟩
+  · exact ⟨[], by simp [Sub.dpart]⟩
   · split
     · exact ⟨sb.dpart, by simp [Sub.dpart]⟩
     · obtain ⟨r, hr⟩ := popBack_prefix DV.alloc g sb.dvs
@@ -307,5 +307,51 @@ theorem getElemOpt_setSlot (l : List (Option St)) (k j : Nat) (o : Option St) (h
     (setSlot l k o)[j]? = l[j]? := by
   unfold setSlot; rw [getElem?_modAt, if_neg h]
 
+
+
+/-! ### an explicit update of one discrete variable -/
+
+theorem dparts_modDV (st : St) (k : Key) (f g : DV → DV) (h : ∀ d, (f d).nodeps = g d.nodeps) :
+    (st.modDV k f).dparts = modAt st.dparts k.1 (fun l => modAt l k.2 g) := by
+  unfold St.dparts St.modDV St.modSub
+  apply map_modAt
+  intro sb
+  unfold Sub.dpart
+  exact map_modAt DV.nodeps sb.dvs k.2 f g h
+
+/-- what `updDiscreteVariable` + assignment does to the variable itself -/
+def DV.updated (τ : Option Int) (v : Int) (d : DV) : DV := { d with valVer := d.valVer + 1, tLast := τ, value := v }
+
+/-- the State just before the variable itself is touched in `updDiscreteVariable(k)` -/
+def St.preSetDV (st : St) (k : Key) (dv : DV) : St :=
+  match dv.auto with
+  | some cx => (st.invalAll dv.inval).notify [(k.1, cx)]
+  | none => st.invalAll dv.inval
+
+/-- discrete-variable parts after `updDiscreteVariable(k) = v`: the stacks restored to just below the invalidated
+stage, with variable `k` given the new value, the next value version and the update time -/
+theorem dparts_setDV (st : St) (k : Key) (v : Int) (dv : DV) (h : st.dv? k = some dv) :
+    (st.setDV k v).dparts =
+      modAt (st.subs.map (fun sb => (sb.restore (dv.inval - 1)).dpart)) k.1
+        (fun l => modAt l k.2 (DV.updated (st.preSetDV k dv).t v)) := by
+  have hpre : (st.preSetDV k dv).dparts = st.subs.map (fun sb => (sb.restore (dv.inval - 1)).dpart) := by
+    unfold St.preSetDV
+    split
+    · rw [dparts_notify, dparts_invalAll]
+    · rw [dparts_invalAll]
+  have hdef : st.setDV k v =
+      ((st.preSetDV k dv).modDV k (fun d => { d with valVer := d.valVer + 1, tLast := (st.preSetDV k dv).t, value := v })).notify
+        (match (st.preSetDV k dv).dv? k with | some d => d.deps | none => []) := by
+    unfold St.setDV St.preSetDV
+    simp only [h]
+    rfl
+  rw [hdef, dparts_notify, ← hpre]
+  exact dparts_modDV _ k _ (DV.updated (st.preSetDV k dv).t v) (fun _ => rfl)
+
+theorem getElem?_prefix {α : Type} {l p r : List α} (h : l = p ++ r) {i : Nat} {y : α} (hy : p[i]? = some y) :
+    l[i]? = some y := by
+  rw [h]
+  have hi : i < p.length := (List.getElem?_eq_some_iff.mp hy).1
+  rw [List.getElem?_append_left hi]; exact hy
 
 end C18
